@@ -59,6 +59,7 @@ func c05Inputs() []inputs.Input {
 		I("csv_ragged", 4, 3, 2), I("json_trunc", 3072, 3000, 0),
 		I("tar", 100, 0, 1), I("sample", 0, 0, 1), I("sample", 0, 0, 10),
 		I("corpus", 0, 0, 3), I("corpus", 0, 0, 57), I("corpus", 300, 1, 111), I("corpus", 40, 2, 160),
+		I("tar_poly", 600, 4, 20), I("tar_poly", 100, 3, 85), I("tar_poly", 0, 6, 140), I("overlay", 8, 40, 66),
 		I("text", 10000, 0, 0), I("json", 20000, 0, 0), I("random", 70000, 0, 0), I("csv_big", 2000, 0, 5),
 		I("text_nul", 9<<20+77, 8<<20+2, 0),
 	}
